@@ -120,7 +120,8 @@ func (c *ClientFingerprintConfiguration) WriteToConfig(config *Config) error {
 func currentTimestamp() ([]byte, error) {
 	t := time.Now().Unix()
 	buf := new(bytes.Buffer)
-	err := binary.Write(buf, binary.BigEndian, t)
+	// the timestamp prefix of the client random is the low 32 bits of the Unix time
+	err := binary.Write(buf, binary.BigEndian, uint32(t))
 	return buf.Bytes(), err
 }
 
